@@ -252,6 +252,12 @@ class Client(object):
     def connected(self):
         return self.disp is not None and self.disp.up
 
+    def set_prop(self, key, value):
+        """the application sets a stack property from its own thread while the network thread is idle"""
+        self.props[key] = value
+        if getattr(self, "stack", None) is not None:
+            self.stack.setProp(key, value)
+
     def send(self, entity):
         """the application sends from its own thread (here: the harness thread, while the network thread is idle)"""
         envkit_home(self.home)
